@@ -12,7 +12,7 @@ RULE = ('(a) two engines, generator level: every ordered pair of actor scripts f
         'script with overwrite on/off, assert_fact, register_function, clear, atom, start/next/close of a query or a '
         'retract) x ALL merge orders of their steps; (b) one engine: every pair (and every triple from a subset) of '
         'side-effect-free queries over disjoint variables (recursion, cut, if-then-else, negation, \\=, once, findall, '
-        'infinite enumeration) suspended simultaneously x ALL merge orders of their next() steps (5 each; triples: 2 each, thorough 3); '
+        'infinite enumeration) suspended simultaneously x ALL merge orders of their next() steps (pairs: 4 each, thorough 5; triples: 2 each, thorough 3), including queries over dynamic facts that contain variables; '
         '(c) two real threads, each with its own engine (assert two facts, enumerate a conjunction, use findall and '
         'retract), under a baton scheduler that makes every traced source line of yldprolog and of the loaded script a '
         'scheduling point: every schedule with <= 1 [thorough: <= 2] preemptions. Oracle, without hand-written '
@@ -161,11 +161,16 @@ PROG_B = [
     (F('t5', X), conj(call(F('m', X)), call(F('\\=', X, C(2))))),
     (F('t6', X, Y), conj(call(F('m', X)), CUT, call(F('m', Y)))),
     (F('t7', X), (';', call(F('m', X)), conj(call(F('=', X, C(9))), CUT))),
+    (F('t8', X, Y), conj(call(F('same', X, C(1))), call(F('same', Y, C(2))), call(F('dynp', W)))),
 ]
 QUERIES = [F('app', V('Q1'), V('Q2'), L([C(1), C(2), C(3)])), F('mem', V('Q1'), L([A('a'), A('b'), A('c')])), F('nat', V('Q1')),
            F('t1', V('Q1')), F('t2', V('Q1'), V('Q2')), F('t3', V('Q1')), F('t4', V('Q1')), F('t5', V('Q1')), F('t6', V('Q1'), V('Q2')),
-           F('t7', V('Q1')), F('m', V('Q1'))]
-TRIPLE_SUBSET = [0, 2, 4, 8, 9]
+           F('t7', V('Q1')), F('m', V('Q1')),
+           # dynamic facts that contain variables (every use works on its own renamed copy)
+           F('same', A('a'), V('Q1')), F('same', A('b'), V('Q1')), F('same', V('Q1'), A('c')), F('dynp', V('Q1')),
+           F('dyn2', V('Q1'), C(7)), F('t8', V('Q1'), V('Q2'))]
+TRIPLE_SUBSET = [0, 2, 4, 8, 11, 12, 13, 14, 16]
+DYNAMIC_B = [F('same', V('S'), V('S')), F('dynp', ('v', ('_', 1))), F('dynp', A('k')), F('dyn2', F('f', V('D')), V('D'))]
 
 
 class QRun:
@@ -185,6 +190,8 @@ class QRun:
 
 def run_queries(pytext, goals, order):
     yp = impl.new_engine(pytext)
+    for t in DYNAMIC_B:
+        yp.assert_fact(yp.atom(t[1]), [impl.to_engine(yp, x, {}) for x in t[2]])
     runs = [QRun(yp, g) for g in goals]
     for who in order:
         runs[who].step()
@@ -259,7 +266,7 @@ os_sep = _os.sep
 
 # ---------------------------------------------------------------- plan / run
 def plan(tier):
-    sh = [('a', k, 32) for k in range(32)] + [('b2', k, 32, 5) for k in range(32)] + [('b3', k, 16, 2 if tier == 'quick' else 3) for k in range(16)]
+    sh = [('a', k, 32) for k in range(32)] + [('b2', k, 32, 4 if tier == 'quick' else 5) for k in range(32)] + [('b3', k, 16, 2 if tier == 'quick' else 3) for k in range(16)]
     bound = 1 if tier == 'quick' else 2
     nshard = 16 if tier == 'quick' else 64
     for variant in range(3):
